@@ -36,7 +36,7 @@ ASSUMPTIONS = [
 ]
 
 OPTION_SETS = ["", "addition=True", "addition=int", "immutable=True", "ignore_delete_nonexistent=True",
-               "collect_errors=True"]
+               "collect_errors=True", "collect_errors=True, addition=int", "collect_errors=True, addition=False"]
 
 SRC = '''
 class {name}({base}):
